@@ -3,12 +3,13 @@ CONSTANTS
   SlotsPerEpoch = 32
   Slots = {319, 320}
   GivenEpochs = {9, 10}
-  MaxBatch = 3
+  MaxBatch = 2
   NReq = 3
-  ForkEpochs = {10}
+  ForkEpochs = {10, 40}
   HistOps = {"attestation", "attestations", "proposal", "randao", "slot_selection", "sync_selection", "aggregate_and_proof", "sync_root", "contribution", "blob_sidecar", "registration"}
   HistKinds = {"plain", "plain_dist", "prot", "prot_dist"}
-  HistFails = {"none"}
-  GateModes = {"d", "s", "ds", "none"}
+  HistFails = {"none", "input"}
+  GateModes = {"d", "s", "none"}
+  Boots <- BootsSim
 INVARIANTS Emit
 CHECK_DEADLOCK FALSE
